@@ -1,5 +1,6 @@
 import BeyondVerif.Model.ManF
 import BeyondVerif.Model.ManWin
+import BeyondVerif.Model.FrameReg
 import BeyondVerif.Drv.Util
 namespace BeyondVerif.Drv.C17
 open BeyondVerif BeyondVerif.Drv BeyondVerif.F BeyondVerif.ManWin BeyondVerif.Generated
@@ -17,7 +18,20 @@ def intsToStr (l : List Int) : String := joinWith " " (l.map toString)
 def splitOnBar (toks : List String) : List String × List String :=
   (toks.takeWhile (· ≠ "|"), (toks.dropWhile (· ≠ "|")).drop 1)
 
+/-- `reg <name> <tag> <orbit id>` | `conv <name>` … -/
+partial def parseOps : List String → Option (List FrameReg.Op)
+  | [] => some []
+  | "reg" :: name :: tag :: id :: rest => do
+    let n ← id.toNat?
+    let ops ← parseOps rest
+    pure (FrameReg.Op.reg name ⟨tag, n⟩ :: ops)
+  | "conv" :: name :: rest => do
+    let ops ← parseOps rest
+    pure (FrameReg.Op.conv name :: ops)
+  | _ => none
+
 /--
+`c17.session reg <name> <tag> <id> conv <name> …` → for each conv `tag:id` (or `unknown`), the binding it must use
 `c17.local <QSW|TNW> x0..x5`                 → 9 floats, `to_local(tag, x, expanded=False)` row-major; other tags: `value-error`
 `c17.proj <QSW|TNW|-> x0..x5 d0 d1 d2`       → 3 floats, `ImpulsiveMan.dv` / `ContinuousMan.accel`
 `c17.accdv <QSW|TNW|-> x0..x5 d0 d1 d2 dur`  → 3 floats, `ContinuousMan(dv=…).accel`
@@ -31,6 +45,12 @@ def splitOnBar (toks : List String) : List String × List String :=
 `c17.cont <euler|rk4|rkf54|dopri54> start stop date step` → 0/1 per stage
 -/
 def handle : List String → Option String
+  | "c17.session" :: rest => some <|
+    match parseOps rest with
+    | some ops => joinWith " " ((FrameReg.run [] ops).map (fun
+        | some e => e.tag ++ ":" ++ toString e.orbit
+        | none => "unknown"))
+    | none => "bad-op"
   | "c17.local" :: tag :: rest => some <|
     match tagOf tag, takeFloats 6 rest with
     | some Tag.other, _ => "value-error"
